@@ -159,7 +159,7 @@ class RunRes:
 
     @property
     def inconclusive(self):
-        return self.outcome in ("timeout", "fuel", "unsupported", "noresult", "stackoverflow", "badcase")
+        return self.outcome in ("timeout", "fuel", "unsupported", "noresult", "stackoverflow", "badcase", "crash")
 
     def proj(self, position=True, io=False):
         p = [self.outcome, self.stdout, self.json, self.depth]
